@@ -485,6 +485,7 @@ type FuncSpec struct {
 	Results  []string
 	Requires []Clause
 	Ensures  []Clause
+	Assumed  []Clause // postconditions assumed at call sites but not checked against the body (listed as assumptions)
 	Modifies []Clause // l-value expressions or ghost names; "*" text = everything
 	Loops    map[int]*LoopSpec
 	Closures map[int]*FuncSpec
@@ -541,7 +542,7 @@ func NewSpecDB() *SpecDB {
 
 var clauseKeywords = map[string]bool{"spec": true, "axiom": true, "lemma": true, "ghost": true, "func": true, "iface": true,
 	"extern": true, "params": true, "results": true, "requires": true, "ensures": true, "modifies": true, "loop": true,
-	"closure": true, "invariant": true, "relation": true, "trusted": true, "end": true, "sets": true, "reveals": true}
+	"closure": true, "invariant": true, "relation": true, "trusted": true, "end": true, "sets": true, "reveals": true, "assumes": true}
 
 // canonKey turns "Name", "(*T).M", "(T).M", "I.M" into a key qualified by pkg, unless already qualified (contains '/').
 func canonKey(pkg, name string) string {
@@ -733,6 +734,15 @@ func (db *SpecDB) LoadSpecFile(path, pkg string, stripPrefix bool) error {
 				return fmt.Errorf("%s:%d: relation needs 'R over slicevar'", path, s.n)
 			}
 			target.Relation, target.RelOver = f[0], f[2]
+		case "assumes":
+			if target == nil {
+				return fmt.Errorf("%s:%d: clause outside func", path, s.n)
+			}
+			c, err := mkClause(s)
+			if err != nil {
+				return err
+			}
+			target.Assumed = append(target.Assumed, c)
 		case "requires", "ensures", "invariant":
 			if target == nil {
 				return fmt.Errorf("%s:%d: clause outside func", path, s.n)
